@@ -34,7 +34,7 @@ def t3(rep, tier, seed):
                                           {"argv": ["mlr", flag, out] + extra + ["cat"], "stdin_hex": data[:200].hex(), "exit": rc, "stderr": se.decode(errors="replace")[:400]}, True)
         progs = ['$y = strptime($x, $x)', '$y = format_values($x)', '$y = splitax($x, "")', '$y = substr($x, -5, 900)', '$y = $x[1:2][3]', '$*[1][2] = 3', 'unset $*["a"][1]',
                  '$y = fmtnum($x, "%08.3lf%d")', '$y = sub($x, "(", "\\1")', '$y = 1 // 0 . 1 % 0', '$y = msub(5, 6, 0)', '$y = 7 >>> -1', '$y = sec2gmt(1e300)', '$y = strftime(1e18, "%Y")',
-                 '$y = percentile([], 50)', '$y = percentiles([1,"a",{}], ["x"])', '$y = sort_by_key(1)', '$y = json_decode("{")', '$y = unformat("{}", 5)', '$y = latin1_to_utf8("\\xff")',
+                 '$y = percentile([], 50)', '$y = percentiles([1,"a",{}], ["x"])', '$y = sort_by_key(1)', '$y = json_parse("{")', '$y = unformat("{}", 5)', '$y = latin1_to_utf8("\\xff")',
                  '$y = strfntime(-9223372036854775807, "%N")', '$y = dhms2sec("xyz")', '$y = sec2dhms(-9223372036854775807 - 1)', '$y = index("", "")', '$y = leafcount($*)',
                  '$y = strptime("1970-01-01T00:00:00Z", "%Y-%m-%dT%H:%M:%SZ%")', '$y = gssub($x, "", "x")', '$y = format("{}:{}", 1)', '$y = strfntime_local(1, "%A", "nosuch/zone")']
         for p in progs:
